@@ -468,6 +468,31 @@ def hybrid_temp_type_checks(ctx):
             ctx.check(f"resolve_hybrid returns that temporary [{name} value]", bool(same), "the LocalVar h_tmpN", lab(ret)[:60], fn_where(idx, fi), nontrivial=False)
 
 
+def temporary_constructor_keeps_the_type(ctx):
+    """the variable that holds an operation's value is constructed with exactly the type it is given (LocalVar.__init__ evaluated for every
+    width / sign, with and without an owning operation): resolve_hybrid relies on `type(temporary) == type(operation)` - with another type
+    the conversion it applies hands back a Cast instead of the operation, and the operation's own effect drops out of its sequence"""
+    idx = get_index(ctx.env)
+    fi = idx.resolve_method("LocalVar", "__init__")
+    ctx.need(fi is not None, "LocalVar.__init__ not found")
+    for owner in (True, False):
+        for signed in (True, False):
+            for w in (1, 8, 16, 32, 64):
+                groups = ("PURE", "HYBRID_LVAR") if owner else ("PURE",)
+                box = {}
+
+                def once(i, signed=signed, w=w, groups=groups, owner=owner):
+                    t = mk_vt("t", signed, w, groups)
+                    box["t"] = t
+                    o = AObj("LocalVar", {}, label="v")
+                    kw = {"hybrid_owner": AObj("Hybrid", {}, label="owner", opaque=True)} if owner else {}
+                    i.call_function(fi, ["h_tmp0", t], kw, self_obj=o)
+                    return o.fields.get("value_type")
+                outs = Interp(idx).explore(once)
+                got = sorted({((o.value.fields.get("_signed"), o.value.fields.get("_bit_width")) if o.kind == "return" and isinstance(o.value, AObj) else ("RAISE",)) for o in outs}, key=str)
+                ctx.check(f"LocalVar({'temporary of an operation' if owner else 'plain'}, {'s' if signed else 'u'}{w}) has the type it was given", got == [(signed, w)], str((signed, w)), str(got), fn_where(idx, fi), nontrivial=(w < 32))
+
+
 def floating_types_use_floating_operators(ctx):
     """writer / reader agreement on what marks a floating value: the type object `float` / `double` denote (get_value_type_by_c_type) is
     recognised as floating by every operator template that chooses between the bitvector and the float form of an operation"""
@@ -512,6 +537,7 @@ def r10_8(ctx):
     r08_6(ctx)  # locals of the bundled routines are disjoint: one IL variable never gets values of two widths
     idx = get_index(ctx.env)
     hybrid_temp_type_checks(ctx)
+    temporary_constructor_keeps_the_type(ctx)
     floating_types_use_floating_operators(ctx)
     from .c08 import r08_5
 
